@@ -9,7 +9,8 @@
                                            its '.' and its '..' are constructed
                    remove_child            which records are decremented
      pycdlib.py    new                     root '.' then root '..'
-                   add_directory           rec.new_dir ; _add_child_to_dr(rec) (duplicate test!) ;
+                   add_directory           duplicate-name test (raises BEFORE any record is built),
+                                           rec.new_dir ; _add_child_to_dr(rec) ;
                                            _create_dot ; _create_dotdot
                    rm_directory            refusals, then remove_child
                    _reassign_vd_dirrecord_extents   the is_dotdot() branch (copy_file_links)
@@ -18,11 +19,7 @@
    carries the three records that hold a count for it:
      entry_links   the directory's own record inside its parent (the root's own record has no
                    Rock Ridge: field unused for the root, kept at 0),
-     dot_links     its '.' record, dotdot_links its '..' record.
-   [leaked] is a GHOST counter (no Python counterpart, never read by any update of the three real
-   fields): the number of refused duplicate add_directory calls that nevertheless bumped this
-   directory's counts (see [step], AddDir, duplicate branch).  It only serves to state the exact
-   general invariant. *)
+     dot_links     its '.' record, dotdot_links its '..' record. *)
 From Coq Require Import ZArith List Bool.
 Import ListNotations.
 Local Open Scope Z_scope.
@@ -31,8 +28,7 @@ Record node := mkNode {
   path : list Z;
   entry_links : Z;
   dot_links : Z;
-  dotdot_links : Z;
-  leaked : Z }.
+  dotdot_links : Z }.
 
 Definition state := list node.
 
@@ -65,14 +61,13 @@ Definition has_subdir (s : state) (q : list Z) : bool :=
   existsb (is_child_of q) (paths s).
 
 (* field updates = the three RockRidge methods applied to one record *)
-Definition add_entry (n : node) := mkNode (path n) (entry_links n + 1) (dot_links n) (dotdot_links n) (leaked n).
-Definition add_dot (n : node) := mkNode (path n) (entry_links n) (dot_links n + 1) (dotdot_links n) (leaked n).
-Definition add_dotdot (n : node) := mkNode (path n) (entry_links n) (dot_links n) (dotdot_links n + 1) (leaked n).
-Definition sub_entry (n : node) := mkNode (path n) (entry_links n - 1) (dot_links n) (dotdot_links n) (leaked n).
-Definition sub_dot (n : node) := mkNode (path n) (entry_links n) (dot_links n - 1) (dotdot_links n) (leaked n).
-Definition sub_dotdot (n : node) := mkNode (path n) (entry_links n) (dot_links n) (dotdot_links n - 1) (leaked n).
-Definition set_dotdot (n : node) (v : Z) := mkNode (path n) (entry_links n) (dot_links n) v (leaked n).
-Definition add_leak (n : node) := mkNode (path n) (entry_links n) (dot_links n) (dotdot_links n) (leaked n + 1).
+Definition add_entry (n : node) := mkNode (path n) (entry_links n + 1) (dot_links n) (dotdot_links n).
+Definition add_dot (n : node) := mkNode (path n) (entry_links n) (dot_links n + 1) (dotdot_links n).
+Definition add_dotdot (n : node) := mkNode (path n) (entry_links n) (dot_links n) (dotdot_links n + 1).
+Definition sub_entry (n : node) := mkNode (path n) (entry_links n - 1) (dot_links n) (dotdot_links n).
+Definition sub_dot (n : node) := mkNode (path n) (entry_links n) (dot_links n - 1) (dotdot_links n).
+Definition sub_dotdot (n : node) := mkNode (path n) (entry_links n) (dot_links n) (dotdot_links n - 1).
+Definition set_dotdot (n : node) (v : Z) := mkNode (path n) (entry_links n) (dot_links n) v.
 
 Definition map_node (s : state) (q : list Z) (f : node -> node) : state :=
   map (fun n => if peq (path n) q then f n else n) s.
@@ -100,7 +95,7 @@ Definition px_new : Z := 1.
 
 (* pycdlib.new(rock_ridge=...): root '.' : PX.new then add_to_file_links (parent.is_root and
    file_ident == b'\x00'); root '..' likewise. *)
-Definition init : state := [mkNode [] 0 (px_new + 1) (px_new + 1) 0].
+Definition init : state := [mkNode [] 0 (px_new + 1) (px_new + 1)].
 
 Definition max_depth : nat := 7.
 
@@ -115,7 +110,7 @@ Definition new_node (s1 : state) (p q : list Z) : node :=
   let entry1 := entry0 + 1 in
   let dot1 := px_new + 1 in
   let dotdot1 := match find_node s1 q with Some pn => dot_links pn | None => px_new end in
-  mkNode p entry1 dot1 dotdot1 0.
+  mkNode p entry1 dot1 dotdot1.
 
 Definition step (s : state) (o : op) : state :=
   match o with
@@ -126,11 +121,11 @@ Definition step (s : state) (o : op) : state :=
         let q := removelast p in
         if (max_depth <? length p)%nat then s         (* OUT OF MODEL: relocation *)
         else if negb (has_node s q) then s            (* 'Could not find path' *)
+        else if has_node s p then s                   (* 'Failed adding duplicate name to parent',
+                                                         raised before new_dir *)
         else
           let s1 := map_node s q (bump q) in          (* rec.new_dir -> _rr_new *)
-          if has_node s p
-          then map_node s1 q add_leak                 (* _add_child_to_dr raises AFTER the bump *)
-          else new_node s1 p q :: s1
+          new_node s1 p q :: s1
       end
   | RmDir p =>
       match p with
@@ -160,24 +155,6 @@ Definition accepts (s : state) (o : op) : bool :=
       | [] => false
       | _ => has_node s p && negb (has_subdir s p)
       end
-  end.
-
-(* the op is an add_directory refused for a duplicate name (the late refusal) *)
-Definition dup_hit (s : state) (o : op) : bool :=
-  match o with
-  | AddDir p =>
-      match p with
-      | [] => false
-      | _ => negb (max_depth <? length p)%nat && has_node s (removelast p) && has_node s p
-      end
-  | RmDir _ => false
-  end.
-
-(* no op of the history is a duplicate add *)
-Fixpoint clean (s : state) (ops : list op) : bool :=
-  match ops with
-  | [] => true
-  | o :: r => negb (dup_hit s o) && clean (step s o) r
   end.
 
 (* _reassign_vd_dirrecord_extents, is_dotdot() branch, for the '..' of every non-root directory d
